@@ -11,13 +11,16 @@
   source, field items of the form `.x…` - checked on every lexed source by the lexer stream), every
   fuel, every literal table and every loader.
 -/
-import JetVerif.Lemmas.ParseNoCrash
+import JetVerif.Lemmas.ParseDrain
 
 namespace JetVerif.Props.C02P
 open JetVerif JetVerif.Parse
 
-/-- what the parser may assume about the items it receives -/
-abbrev WfItems (input : Bytes) (toks : List Item) : Prop := ∀ t ∈ toks, WfItem input t
+/-- what the parser may assume about the items it receives: every item is positioned inside the
+    source and a field item is `.x…` (`WfItem`), and an item of type `itemEOF` is the last item the lexer
+    sends (`EofLast`: `lexText` returns nil right after emitting it).  Both are proved of the lexer model for
+    every source and delimiter configuration (Props/C02L: `lexer_output_satisfies_parser_assumptions`). -/
+abbrev WfItems (input : Bytes) (toks : List Item) : Prop := (∀ t ∈ toks, WfItem input t) ∧ EofLast toks
 
 /-- **The parser never panics** (for every fuel): `parseTemplate` ends in a tree, an error, or - for
     too small a fuel - out of fuel; never in a crash. -/
@@ -25,7 +28,7 @@ theorem parser_never_crashes (cfg : Cfg) (name input : Bytes) (toks : List Item)
     (h : WfItems input toks) (w : String) :
     parseTemplate cfg fuel { input := input, name := name, toks := toks } ≠ .crash w := by
   intro hc
-  have := parseTemplate_safe input cfg fuel _ (initial_inv input name toks h)
+  have := parseTemplate_safe input cfg fuel _ (initial_inv input name toks h.1 h.2)
   rw [hc] at this
   exact this
 
@@ -46,7 +49,7 @@ theorem syntax_error_names_a_source_line (cfg : Cfg) (name input : Bytes) (toks 
     (h : WfItems input toks) (line : Nat) (msg : Msg)
     (he : parseTemplate cfg fuel { input := input, name := name, toks := toks } = .err line msg) :
     1 ≤ line ∧ line ≤ 1 + countNl input := by
-  have := parseTemplate_safe input cfg fuel _ (initial_inv input name toks h)
+  have := parseTemplate_safe input cfg fuel _ (initial_inv input name toks h.1 h.2)
   rw [he] at this
   exact this
 
@@ -56,7 +59,19 @@ theorem buffer_discipline (cfg : Cfg) (name input : Bytes) (toks : List Item) (f
     (h : WfItems input toks) (r : Nat × List PStmt) (s' : PSt)
     (hk : parseTemplate cfg fuel { input := input, name := name, toks := toks } = .ok r s') :
     s'.peekCount ≤ 2 := by
-  have := parseTemplate_safe input cfg fuel _ (initial_inv input name toks h)
+  have := parseTemplate_safe input cfg fuel _ (initial_inv input name toks h.1 h.2)
+  rw [hk] at this
+  exact this.2
+
+/-- **A successful parse has received every item the lexer had**: when `parseTemplate` returns a tree the
+    channel is empty - the lexer goroutine has sent its last item (`itemEOF`), has left its loop and has
+    closed the channel; nothing is left blocked on a send.  (On the error path `Template.recover` drains the
+    channel: Props/C02H.) -/
+theorem successful_parse_receives_every_item (cfg : Cfg) (name input : Bytes) (toks : List Item) (fuel : Nat)
+    (h : WfItems input toks) (r : Nat × List PStmt) (s' : PSt)
+    (hk : parseTemplate cfg fuel { input := input, name := name, toks := toks } = .ok r s') :
+    s'.toks = [] := by
+  have := parseTemplate_drained input cfg fuel _ (initial_inv input name toks h.1 h.2)
   rw [hk] at this
   exact this.2
 
@@ -72,6 +87,7 @@ theorem expression_never_crashes (cfg : Cfg) (input : Bytes) (n : Nat) (ctx : St
 example : WfItems [123, 123, 32, 46, 97, 32, 125, 125]
     [⟨Tok.leftDelim, 0, [123, 123]⟩, ⟨Tok.space, 2, [32]⟩, ⟨Tok.field, 3, [46, 97]⟩,
      ⟨Tok.space, 5, [32]⟩, ⟨Tok.rightDelim, 6, [125, 125]⟩, ⟨Tok.eof, 8, []⟩] := by
+  refine ⟨?_, eofLast_of_dropLast (by decide)⟩
   intro t ht
   simp at ht
   rcases ht with rfl | rfl | rfl | rfl | rfl | rfl <;> refine ⟨by decide, by decide, ?_⟩ <;> intro h <;>
